@@ -202,11 +202,21 @@ VEC_RULES.update({
 })
 
 
+C08_GRID_RULE = ('grid at the limit: FixedCapacityVector N in {1,2,3,7,15} sizes N-3..N; 8-bit size_type (uint8 max 255, int8 max 127) vector / inline '
+                 'SmallVector<250> / heap SmallVector<4>, sizes max-2..max (max-5..max thorough); uint16 sampled at 65533/65535; 24 growing operations '
+                 '(push_back x2, emplace_back, emplace, insert x7, resize x2, assign x3, append x4, reserve, 3 constructors) x positions {begin,middle,end} '
+                 '(every position for N<=8) x counts {0..6,127,128,255,256,65535}; at(i) for i in 0..size+3 and the size_type maximum; elements int, TR, NTR; '
+                 'oracle: beyond the limit -> documented exception type and contents/size/capacity/data()/live objects/blocks unchanged, otherwise equal to '
+                 'std::vector; follow-up ops; non-trivial = result within +-2 of the limit with a non-trivial position or count; distinct = grid point')
+
+
 def check_C08(tier, seed, t0):
     cases, maxlen = budget(tier, (30000, 50), (300000, 60))
     names = C.vec_subset(C.is_8bit)
-    parts = [interp_part('C08', 'vector_histories', vec_jobs(names, cases, maxlen), seed, VEC_RULES['C08'], True, crash_class_codes=[44, 32])]
-    return finish('C08', tier, seed, 'exploration', parts, VEC_RULES['C08'], ASSUME_COMMON, t0)
+    parts = [enum_part('C08', 'exhaustive_grid', [enum_unit('exh_c08', 'targets/exh_c08.cpp')], seed, tier, C08_GRID_RULE, shards=12),
+             interp_part('C08', 'vector_histories', vec_jobs(names, cases, maxlen), seed, VEC_RULES['C08'], True, crash_class_codes=[44, 32])]
+    parts[1].coverage['exhaustive'] = False
+    return finish('C08', tier, seed, 'exploration', parts, C08_GRID_RULE + ' || histories: ' + VEC_RULES['C08'], ASSUME_COMMON, t0)
 
 
 C10_GRID_RULE = ('exhaustive: size 1..6 x position 0..size x source index 0..size-1 x count 0..4 x spare capacity {0,1,count,20} x {push_back, insert, '
@@ -238,7 +248,7 @@ def c13_units():
 
 def check_C13(tier, seed, t0):
     cases, maxlen = budget(tier, (30000, 50), (300000, 60))
-    parts = [enum_part('C13', 'exhaustive_pairs', c13_units(), seed, tier, C13_GRID_RULE),
+    parts = [enum_part('C13', 'exhaustive_pairs', c13_units(), seed, tier, C13_GRID_RULE, shards=4),
              interp_part('C13', 'vector_histories_same_type', vec_jobs([n for n, _ in C.VEC_CONFIGS], cases, maxlen), seed, VEC_RULES['C13'], True, crash_class_codes=[26])]
     parts[1].coverage['exhaustive'] = False
     return finish('C13', tier, seed, 'exploration', parts, C13_GRID_RULE + ' || histories: ' + VEC_RULES['C13'], ASSUME_COMMON, t0)
@@ -319,7 +329,12 @@ def check_C09(tier, seed, t0):
     jobs2 = [{'unit': fault_unit(n), 'cases': cases, 'maxlen': 3} for n in names]
     part2 = interp_part('C09', 'random_scenarios', jobs2, seed, FAULT_RULE + '; rapidcheck-generated scenarios with sizes up to 16 and counts up to 13', True)
     part2.coverage['exhaustive'] = False
-    return finish('C09', tier, seed, 'fault_enumeration', [part1, part2], FAULT_RULE,
+    hc, hl = budget(tier, (20000, 50), (200000, 60))
+    part3 = interp_part('C09', 'histories_with_allocation_failures', vec_jobs(C.vec_subset(C.is_ledger), hc, hl), seed,
+                        'vector histories in which growing calls (reserve, emplace_back, emplace, resize, append, shrink_to_fit) run with the first allocator '
+                        'request throwing bad_alloc: the call must fail cleanly and the history continues on the same container; non-trivial = C01 rule', True, crash_class_codes=[49])
+    part3.coverage['exhaustive'] = False
+    return finish('C09', tier, seed, 'fault_enumeration', [part1, part2, part3], FAULT_RULE,
                   ASSUME_COMMON + ['single faults only; element moves are noexcept (throwing moves are not demanded)', 'strong guarantee is not demanded for single-pass input ranges'], t0)
 
 
@@ -329,8 +344,9 @@ def enum_unit(name, src, std='17', kind='asan', extra=None, defines=None):
     return D.Unit(name, src, d, std=std, kind=kind, engine=False, extra=extra)
 
 
-def enum_part(prop, name, units, seed, tier, rule, crash_is_violation=True, exhaustive=True, extra_args=None):
-    jobs = [{'unit': u, 'enum': True, 'cases': 0, 'maxlen': 0, 'extra_args': ['--tier', tier] + list(extra_args or [])} for u in units]
+def enum_part(prop, name, units, seed, tier, rule, crash_is_violation=True, exhaustive=True, extra_args=None, shards=1):
+    jobs = [{'unit': u, 'enum': True, 'cases': 0, 'maxlen': 0, 'label': ('#%d' % i) if shards > 1 else '',
+             'extra_args': ['--tier', tier] + (['--shard', '%d/%d' % (i, shards)] if shards > 1 else []) + list(extra_args or [])} for u in units for i in range(shards)]
     res = IC.run_jobs(prop, jobs, seed, crash_is_violation)
     cov = IC.merge_coverage(res, rule)
     cov['exhaustive'] = exhaustive
@@ -344,7 +360,7 @@ C12_RULE = ('complete enumeration: all subsets of k odd keys (k=8 quick, k=11 th
 
 
 def check_C12(tier, seed, t0):
-    parts = [enum_part('C12', 'exhaustive_grid', [enum_unit('exh_c12', 'targets/exh_c12.cpp')], seed, tier, C12_RULE)]
+    parts = [enum_part('C12', 'exhaustive_grid', [enum_unit('exh_c12', 'targets/exh_c12.cpp')], seed, tier, C12_RULE, shards=8)]
     cases, maxlen = budget(tier, (20000, 50), (200000, 60))
     p2 = interp_part('C12', 'flatset_histories_hinted', fs_jobs([n for n, _ in C.FS_CONFIGS], cases, maxlen), seed,
                      'FlatSet tapes with hinted insertions (incl. node handles with hints) weighted up, on sets reached by arbitrary histories; non-trivial as C03', True,
@@ -498,7 +514,7 @@ def all_units():
         us += [vec_unit(n, s) for n in C.VEC_MULTISTD]
     us += [fs_unit(n) for n, _ in C.FS_CONFIGS]
     us += [fault_unit(n) for n, _ in FAULT_CONFIGS]
-    us += c15_units() + [race_unit()] + c13_units() + [enum_unit('exh_c10', 'targets/exh_c10.cpp')]
+    us += c15_units() + [race_unit()] + c13_units() + [enum_unit('exh_c10', 'targets/exh_c10.cpp'), enum_unit('exh_c08', 'targets/exh_c08.cpp')]
     from . import c16
     us += [c16.unit(cfg, b) for cfg in c16.VEC + c16.FS + c16.SS for b in c16.QUICK_BUILDS if not (cfg in c16.SS and b[0] in ('11', '14'))]
     us += [enum_unit('exh_c12', 'targets/exh_c12.cpp'), enum_unit('growth_c18', 'targets/growth_c18.cpp', kind='plain'),
